@@ -44,7 +44,7 @@ fn ansi_to_termcolor_color(color: anstyle::AnsiColor) -> termcolor::Color {
         anstyle::AnsiColor::BrightRed => termcolor::Color::Red,
         anstyle::AnsiColor::BrightGreen => termcolor::Color::Green,
         anstyle::AnsiColor::BrightYellow => termcolor::Color::Yellow,
-        anstyle::AnsiColor::BrightBlue => termcolor::Color::Black,
+        anstyle::AnsiColor::BrightBlue => termcolor::Color::Blue,
         anstyle::AnsiColor::BrightMagenta => termcolor::Color::Magenta,
         anstyle::AnsiColor::BrightCyan => termcolor::Color::Cyan,
         anstyle::AnsiColor::BrightWhite => termcolor::Color::White,
